@@ -1,5 +1,5 @@
 import PkgModel.Marker
-import PkgModel.Specifier
+import PkgModel.SpecifierSet
 import PkgModel.Names
 import PkgModel.Generated.ReqTok
 /-!
@@ -20,9 +20,11 @@ import PkgModel.Generated.ReqTok
   `InvalidSpecifier → InvalidRequirement`, marker built by `Marker.__new__` + `_normalize_extra_values`),
   `_iter_parts`/`__str__`, `__eq__`, the tuple `__hash__` hashes.
 
-The specifier set is modelled self-contained as the code holds it (`ReqSpec` section): the clause string handed
-to `SpecifierSet(...)` is split at `,`, stripped, every non-empty piece goes through `S.parseSpec`
-(= `Specifier(...)`), and the `frozenset` keeps the first of two members with equal `_canonical_spec`.
+The specifier set is modelled as the code holds it (`ReqSpec` section): the clause string handed to
+`SpecifierSet(...)` is split at `,`, stripped, every non-empty piece goes through `S.parseSpec` (= `Specifier(...)`)
+— `SSet.clauses` / `SSet.parseAll` of the `SpecifierSet` model — and the `frozenset` keeps the first of two members
+with equal `_canonical_spec`.  The members are kept as plain `S.Spec` (a requirement never sets a member's or the set's
+`prereleases` override), with the key as one string so that the hash key can be a sorted list.
 -/
 namespace Req
 open Py Mk
@@ -310,16 +312,10 @@ def parseSource (src : Str) : Res Parsed := parseRequirement (fuelFor src.length
 
 /-! ## `ReqSpec`: the `SpecifierSet` a requirement holds -/
 
-/-- `[s.strip() for s in specifiers.split(",") if s.strip()]` -/
-def clauses (s : Str) : List Str := ((splitOn 44 s).map strip).filter fun c => !c.isEmpty
-
-/-- `map(Specifier, clauses)`; `none` is `InvalidSpecifier` -/
-def parseAll : List Str → Option (List S.Spec)
-  | [] => some []
-  | c :: cs =>
-    match S.parseSpec c with
-    | none => none
-    | some sp => (parseAll cs).map (sp :: ·)
+/-- `[s.strip() for s in specifiers.split(",") if s.strip()]` and `map(Specifier, clauses)` (`none` is
+`InvalidSpecifier`): the functions of the `SpecifierSet` model -/
+abbrev clauses := SSet.clauses
+abbrev parseAll := SSet.parseAll
 
 /-- `_canonical_spec`, the key of `Specifier.__eq__`/`__hash__`, as one string (operator index, then the text) -/
 def opIndex : S.Op → Nat
